@@ -65,6 +65,15 @@ func (merr *MultiError) Add(err error) {
 	merr.errs = append(merr.errs, err)
 }
 
+// Reset removes all errors from the collection. Unlike replacing the
+// *MultiError, it is safe to call while other goroutines Add to or read it.
+func (merr *MultiError) Reset() {
+	merr.mu.Lock()
+	defer merr.mu.Unlock()
+
+	merr.errs = nil
+}
+
 // Empty returns whether the *MultiError contains any errors.
 func (merr *MultiError) Empty() bool {
 	merr.mu.RLock()
